@@ -216,6 +216,21 @@ def broadcast_assigned(init_tree):
     raise NotRecognised("use of nt._replace(...) not recognised")
 
 
+def sunos_pid0_named(tree):
+    """`_pssunos.Process._proc_basic_info`: the AccessDenied raised for an unreadable PID 0 carries the cached name"""
+    fn = extract.find_def(tree, "_proc_basic_info", cls="Process")
+    for n in ast.walk(fn):
+        if isinstance(n, ast.If) and "self.pid == 0" in extract.unparse(n.test) and "psinfo" in extract.unparse(n.test):
+            if len(n.body) == 1 and isinstance(n.body[0], ast.Raise) and isinstance(n.body[0].exc, ast.Call) \
+                    and extract.dotted(n.body[0].exc.func) == "AccessDenied":
+                args = [extract.unparse(a) for a in n.body[0].exc.args]
+                if args == ["self.pid", "self._name"]:
+                    return True
+                if args == ["self.pid"]:
+                    return False
+    raise NotRecognised("_proc_basic_info pid-0 guard not recognised")
+
+
 # ------------------------------------------------------------------ methods / decorators (runtime)
 
 
